@@ -260,12 +260,15 @@ fn execute_c15(case: &Value, _scratch: &str) -> Outcome {
     let src = source(&mode, eseed, log.clone());
     let mut book = umya::new_file();
     book.get_sheet_mut(&0).unwrap().get_cell_mut("A1").set_value_string("x");
+    let _ = book.new_sheet("Second");
+    let _ = book.new_sheet("Third");
     let kf = kind.as_str();
+    let tsheet = case["sheet"].as_u64().unwrap_or(0) as usize % 3;
     // (alg, salt, spin, hash, raw)
-    let read = |book: &umya::Spreadsheet| -> (String, String, u32, String, String) {
-        match kf {
+    let read_obj = |book: &umya::Spreadsheet, kind: &str, sheet: usize| -> (String, String, u32, String, String) {
+        match kind {
             "sheet" => {
-                let p = book.get_sheet(&0).unwrap().get_sheet_protection().cloned().unwrap_or_default();
+                let p = book.get_sheet(&sheet).and_then(|s| s.get_sheet_protection().cloned()).unwrap_or_default();
                 (p.get_algorithm_name().to_string(), p.get_salt_value().to_string(), *p.get_spin_count(), p.get_hash_value().to_string(), p.get_password_raw().to_string())
             }
             "workbook" => {
@@ -278,12 +281,36 @@ fn execute_c15(case: &Value, _scratch: &str) -> Outcome {
             }
         }
     };
+    let read = |book: &umya::Spreadsheet| read_obj(book, kf, tsheet);
+    let set_obj = |book: &mut umya::Spreadsheet, kind: &str, sheet: usize, pw: &str| match kind {
+        "sheet" => {
+            book.get_sheet_mut(&sheet).unwrap().get_sheet_protection_mut().set_password(pw);
+        }
+        "workbook" => {
+            book.get_workbook_protection_mut().set_workbook_password(pw);
+        }
+        _ => {
+            book.get_workbook_protection_mut().set_revisions_password(pw);
+        }
+    };
+    // other protected objects of the same workbook, set before the one under test: each keeps its own triple
+    let others: Vec<(String, usize, String)> = case["others"]
+        .as_array()
+        .cloned()
+        .unwrap_or_default()
+        .iter()
+        .map(|o| (o["kind"].as_str().unwrap_or("sheet").to_string(), o["sheet"].as_u64().unwrap_or(0) as usize % 3, o["password"].as_str().unwrap_or("").to_string()))
+        .filter(|(k, sh, _)| !(k == kf && (k != "sheet" || *sh == tsheet)))
+        .collect();
+    // one entry per object
+    let mut seen = std::collections::BTreeSet::new();
+    let others: Vec<(String, usize, String)> = others.into_iter().filter(|(k, sh, _)| seen.insert((k.clone(), if k == "sheet" { *sh } else { 0 }))).collect();
     let mut stored = Vec::new();
     if case["legacy_first"].as_bool().unwrap_or(false) {
         // a legacy 16-bit hash attribute was present before (as after loading an old file)
         match kf {
             "sheet" => {
-                book.get_sheet_mut(&0).unwrap().get_sheet_protection_mut().set_password_raw("CAFE");
+                book.get_sheet_mut(&tsheet).unwrap().get_sheet_protection_mut().set_password_raw("CAFE");
             }
             "workbook" => {
                 book.get_workbook_protection_mut().set_workbook_password_raw("CAFE");
@@ -293,20 +320,15 @@ fn execute_c15(case: &Value, _scratch: &str) -> Outcome {
             }
         }
     }
+    let mut others_stored: Vec<(String, String, u32, String, String)> = Vec::new();
     let r = guarded(|| {
         umya::verif_hooks::with_entropy(src, || {
+            for (k, sh, pw) in &others {
+                set_obj(&mut book, k, *sh, pw);
+                others_stored.push(read_obj(&book, k, *sh));
+            }
             for _ in 0..2 {
-                match kf {
-                    "sheet" => {
-                        book.get_sheet_mut(&0).unwrap().get_sheet_protection_mut().set_password(&password);
-                    }
-                    "workbook" => {
-                        book.get_workbook_protection_mut().set_workbook_password(&password);
-                    }
-                    _ => {
-                        book.get_workbook_protection_mut().set_revisions_password(&password);
-                    }
-                }
+                set_obj(&mut book, kf, tsheet, &password);
                 stored.push(read(&book));
             }
         })
@@ -315,7 +337,20 @@ fn execute_c15(case: &Value, _scratch: &str) -> Outcome {
         out.violate(Verdict::new("C15", "C15:set-password-panics", &[("kind", kf)], p.chars().take(200).collect::<String>()));
         return out;
     }
-    let draws = log.borrow().clone();
+    let all_draws = log.borrow().clone();
+    let draws: Vec<Vec<u8>> = all_draws.iter().skip(others.len()).cloned().collect();
+    for (i, (k, sh, pw)) in others.iter().enumerate() {
+        out.step("bystanders", 1);
+        let now = read_obj(&book, k, *sh);
+        if Some(&now) != others_stored.get(i) {
+            out.violate(Verdict::new("C15", "C15:bystander-changed", &[("kind", kf), ("other", k.as_str()), ("when", "set")], format!("setting the {} password changed the stored {} protection data of another object (sheet {})", kf, k, sh)));
+            continue;
+        }
+        let ok = crypto::b64dec(&now.1).map(|salt| crypto::protection_hash(pw, &salt, now.2) == now.3).unwrap_or(false);
+        if !ok {
+            out.violate(Verdict::new("C15", "C15:hash-mismatch", &[("kind", k.as_str()), ("role", "bystander")], format!("the stored {} hash (sheet {}) does not verify for its own password", k, sh)));
+        }
+    }
     for (k, (alg, salt, spin, hash, raw)) in stored.iter().enumerate() {
         out.step("hashes", 1);
         if alg != "SHA-512" || *spin != 100_000 {
@@ -345,7 +380,7 @@ fn execute_c15(case: &Value, _scratch: &str) -> Outcome {
     if mode == "prng" && stored.len() == 2 && stored[0].1 == stored[1].1 {
         out.violate(Verdict::new("C15", "C15:salt-not-fresh", &[("kind", kf)], "two calls with the same password use the same salt".to_string()));
     }
-    if draws.len() != 2 {
+    if draws.len() != 2 || all_draws.len() != 2 + others.len() {
         out.probe("draws_not_one_per_call");
     }
     // save (chunking irrelevant here), look at the XML, reload
@@ -368,11 +403,30 @@ fn execute_c15(case: &Value, _scratch: &str) -> Outcome {
                     }
                 }
             }
-            match guarded(|| world::load_mem(&bytes, true)) {
+            let lazy_touch = case["lazy_touch"].as_u64();
+            let reload = || -> Result<umya::Spreadsheet, String> {
+                match lazy_touch {
+                    // second generation through a lazily opened workbook with one sheet materialised
+                    Some(t) => {
+                        let mut lb = world::load_mem(&bytes, false)?;
+                        let _ = lb.get_sheet_mut(&((t as usize) % 3));
+                        let b2 = world::save_mem(&lb, false)?;
+                        world::load_mem(&b2, true)
+                    }
+                    None => world::load_mem(&bytes, true),
+                }
+            };
+            match guarded(reload) {
                 Ok(Ok(b2)) => {
                     let after = read(&b2);
                     if Some(&after) != before.as_ref() {
                         out.violate(Verdict::new("C15", "C15:lost-on-reload", &[("kind", kf)], format!("after save+reload the protection hash data is {:?}, before {:?}", after, before)));
+                    }
+                    for (i, (k, sh, _)) in others.iter().enumerate() {
+                        let a = read_obj(&b2, k, *sh);
+                        if Some(&a) != others_stored.get(i) {
+                            out.violate(Verdict::new("C15", "C15:lost-on-reload", &[("kind", k.as_str()), ("role", "bystander")], format!("after save+reload the {} protection data of sheet {} is {:?}, before {:?}", k, sh, a, others_stored.get(i))));
+                        }
                     }
                 }
                 _ => out.violate(Verdict::new("C15", "C15:lost-on-reload", &[("kind", kf)], "the saved file cannot be reloaded".to_string())),
@@ -432,5 +486,20 @@ pub fn cases_c15(run_seed: u64, _tier: &str, _scratch: &str) -> Vec<Value> {
     c["entropy"] = json!({"mode": mode, "seed": hex64(en.next_u64())});
     c["light"] = json!(sw.chance(1, 3));
     c["legacy_first"] = json!(sw.chance(1, 3));
+    c["sheet"] = json!(sw.usize(3));
+    if sw.chance(1, 2) {
+        let n = 1 + sw.usize(3);
+        let mut others: Vec<Value> = Vec::new();
+        for _ in 0..n {
+            let k = ["sheet", "sheet", "workbook", "revisions"][sw.usize(4)];
+            let sh = sw.usize(3);
+            let pw = if sw.chance(1, 3) { c["password"].clone() } else { json!(gen_password(&mut sw)) };
+            others.push(json!({"kind": k, "sheet": sh, "password": pw}));
+        }
+        c["others"] = json!(others);
+    }
+    if sw.chance(1, 4) {
+        c["lazy_touch"] = json!(sw.usize(3));
+    }
     vec![c]
 }
